@@ -74,6 +74,24 @@ class Counting:
         f.eval_vectorized = evalv
 
 
+def local_grid(c, a, b):
+    """fresh local (per-area) grid object of the family chosen by c['grid']"""
+    import sparseSpACE.Grid as G
+    kind = c.get('grid', 'trapezoid')
+    bnd = c.get('boundary', True)
+    if kind == 'trapezoid':
+        return G.TrapezoidalGrid(a=a, b=b, boundary=bnd)
+    if kind == 'lagrange2':
+        return G.LagrangeGrid(a=a, b=b, boundary=bnd, p=2)
+    if kind == 'clenshaw':
+        return G.ClenshawCurtisGrid(a=a, b=b, boundary=bnd)
+    if kind == 'gauss':
+        return G.GaussLegendreGrid(a=a, b=b)
+    if kind == 'simpson':
+        return G.SimpsonGrid(a=a, b=b, boundary=bnd)
+    raise ValueError(kind)
+
+
 def build(c):
     """c: dict(strategy, D, lmin, lmax, func, norm, boundary, ...) -> dict with combi, op, f, ec"""
     L = _lib()
@@ -95,7 +113,7 @@ def build(c):
         combi = L['SpatiallyAdaptiveSingleDimensions2'](a, b, operation=op, norm=norm, version=c.get('version', 6), rebalancing=c.get('rebalancing', True))
         ec = L['ErrorCalculatorSingleDimVolumeGuided']()
     elif st == 'extendsplit':
-        grid = L['TrapezoidalGrid'](a=a, b=b, boundary=c.get('boundary', True))
+        grid = local_grid(c, a, b)
         op = L['Integration'](f=f, grid=grid, dim=D, reference_solution=ref)
         combi = L['SpatiallyAdaptiveExtendScheme'](a, b, operation=op, norm=norm, version=c.get('version', 0),
                                                    number_of_refinements_before_extend=c.get('nrbe', 1),
@@ -141,7 +159,7 @@ def independent_combination(S):
             for g in combi.scheme:
                 lv, do = combi.coarsen_grid(g.levelvector, area)
                 if do:
-                    grid = L['TrapezoidalGrid'](a=S['a'], b=S['b'], boundary=c.get('boundary', True))
+                    grid = local_grid(c, S['a'], S['b'])
                     total = total + g.coefficient * np.asarray(grid.integrate(f2, lv, area.start, area.end), dtype=float)
             if hasattr(area, 'levelvec_dict'):
                 area.levelvec_dict = saved
@@ -230,6 +248,10 @@ class Recorder:
             ind = independent_combination(S)
             e['res_comb'] = close(res, ind)
             e['_indep'] = None if ind is None else [float(x) for x in ind]
+            pw = points_and_weights_value(S)
+            if pw is not None and not close(res, pw, 1e-10):
+                e['res_comb'] = False
+                e['_pw'] = [float(x) for x in pw]
         else:
             e['res_comb'] = True
         e['_res'] = [float(x) for x in res]
